@@ -63,6 +63,15 @@ func (t *Tree) getSiblings(tx dbtypes.Querier, index uint32, root common.Hash) (
 		currentNode, err = t.getRHTNode(tx, currentNodeHash)
 		if err != nil {
 			if errors.Is(err, db.ErrNotFound) {
+				// Only empty subtrees are absent from the RHT. Any other missing node means that
+				// the root (or a part of its tree) is unknown, and zero hashes would not prove anything.
+				if !hasUsedZeroHashes && currentNodeHash != t.zeroHashes[h+1] {
+					err = fmt.Errorf(
+						"height: %d, currentNode: %s, error: %w",
+						h, currentNodeHash.Hex(), err,
+					)
+					return
+				}
 				hasUsedZeroHashes = true
 				siblings[h] = t.zeroHashes[h]
 				err = nil
